@@ -20,7 +20,7 @@ def run_seed(sid):
             return sid, meta["property"], None, "patch does not apply: " + r.stderr[-200:]
         results = {}
         for p in PROPS:
-            r = subprocess.run([os.path.join(VERIF, "check"), p, "--root", tmp, "--no-write", "--no-controls"], capture_output=True, text=True, cwd=VERIF)
+            r = subprocess.run([os.path.join(VERIF, "check"), p, "--root", tmp, "--no-write", "--no-controls"], capture_output=True, text=True, cwd=VERIF, env=dict(os.environ, SV_TIME_LIMIT=os.environ.get("SV_TIME_LIMIT", "600")))
             out = r.stdout
             lines = [l for l in out.splitlines() if "VIOLATION" in l or "ANALYSIS-ERROR" in l or " — " in l]
             results[p] = {"exit": r.returncode, "report": [l[:400].replace(tmp + "/", "") for l in lines[:6]]}
